@@ -115,17 +115,17 @@ func checkColl3(r *ev.Run, k coll3, nOrig int, scales []float64, dirStride int) 
 						viol("negative-scale", fmt.Sprintf("collision with negative ray parameter %g", h.Scale), ray)
 					}
 					minS = math.Min(minS, h.Scale)
-					if math.Abs(h.Normal.Norm()-1) > 1e-6 {
+					if !(math.Abs(h.Normal.Norm()-1) <= 1e-6) {
 						viol("normal-not-unit", fmt.Sprintf("normal %v has length %g", h.Normal, h.Normal.Norm()), ray)
 					}
 					if k.sdf != nil {
 						p := ray.Origin.Add(ray.Direction.Scale(h.Scale))
-						if d := k.sdf(p); math.Abs(d) > tolPos {
+						if d := k.sdf(p); !(math.Abs(d) <= tolPos) {
 							viol("hit-off-surface", fmt.Sprintf("collision at t=%g is %g away from the surface", h.Scale, d), ray)
 						} else if k.approx == 0 {
 							if wn, _, smooth := ref.SmoothNormal(k.sdf, p, k.extent, k.feature); smooth {
 								r.NontrivialAdd(1)
-								if h.Normal.Dist(wn) > 5e-3 {
+								if !(h.Normal.Dist(wn) <= 5e-3) {
 									viol("normal-direction", fmt.Sprintf("normal %v at t=%g, outward normal of the reference surface is %v", h.Normal, h.Scale, wn), ray)
 								}
 							}
@@ -134,7 +134,7 @@ func checkColl3(r *ev.Run, k coll3, nOrig int, scales []float64, dirStride int) 
 						}
 					}
 				}
-				if ok && math.Abs(first.Scale-minS) > 1e-9*(1+minS) {
+				if ok && !(math.Abs(first.Scale-minS) <= 1e-9*(1+minS)) {
 					viol("first-not-min", fmt.Sprintf("FirstRayCollision at %g, smallest reported parameter %g", first.Scale, minS), ray)
 				}
 				if k.sdf == nil {
@@ -171,7 +171,7 @@ func checkColl3(r *ev.Run, k coll3, nOrig int, scales []float64, dirStride int) 
 					// documented as approximate: first hit within tolerance, parity not required
 					if (len(ts) > 0) != ok {
 						viol("first-vs-reference", fmt.Sprintf("reference has %d crossings but FirstRayCollision exists=%v", len(ts), ok), ray)
-					} else if ok && math.Abs(first.Scale-ts[0])*ray.Direction.Norm() > 3*k.approx {
+					} else if ok && !(math.Abs(first.Scale-ts[0])*ray.Direction.Norm() <= 3*k.approx) {
 						viol("first-vs-reference", fmt.Sprintf("first hit at %g, reference surface first crossed at %g", first.Scale, ts[0]), ray)
 					}
 					continue
@@ -181,7 +181,7 @@ func checkColl3(r *ev.Run, k coll3, nOrig int, scales []float64, dirStride int) 
 					continue
 				}
 				for i := range ts {
-					if math.Abs(got[i]-ts[i])*ray.Direction.Norm() > 10*tolPos+1e-6*k.extent {
+					if !(math.Abs(got[i]-ts[i])*ray.Direction.Norm() <= 10*tolPos+1e-6*k.extent) {
 						viol("crossings", fmt.Sprintf("collision parameters %v, reference crossings %v", got, ts), ray)
 						break
 					}
@@ -376,12 +376,12 @@ func check2D(r *ev.Run) {
 					for _, h := range hits {
 						got = append(got, h.Scale)
 						p := o.Add(d.Scale(h.Scale))
-						if h.Scale < 0 || math.Abs(s.SDF(p)) > tol || math.Abs(h.Normal.Norm()-1) > 1e-6 {
+						if h.Scale < 0 || !(math.Abs(s.SDF(p)) <= tol) || !(math.Abs(h.Normal.Norm()-1) <= 1e-6) {
 							r.Violation(fam+"/hit", fmt.Sprintf("%s: collision t=%g normal %v: surface distance %g", s.Name, h.Scale, h.Normal, s.SDF(p)), rcase)
 						}
 					}
 					sort.Float64s(got)
-					if ok && len(got) > 0 && math.Abs(first.Scale-got[0]) > 1e-9*(1+got[0]) {
+					if ok && len(got) > 0 && !(math.Abs(first.Scale-got[0]) <= 1e-9*(1+got[0])) {
 						r.Violation(fam+"/first-not-min", fmt.Sprintf("%s: first %g, min %g", s.Name, first.Scale, got[0]), rcase)
 					}
 					if !general {
@@ -391,7 +391,7 @@ func check2D(r *ev.Run) {
 					r.NontrivialAdd(1)
 					bad := len(got) != len(ts)
 					for k := 0; !bad && k < len(ts); k++ {
-						bad = math.Abs(got[k]-ts[k])*d.Norm() > 1e-5*s.Extent
+						bad = !(math.Abs(got[k]-ts[k])*d.Norm() <= 1e-5*s.Extent)
 					}
 					if bad {
 						r.Violation(fam+"/crossings", fmt.Sprintf("%s: collisions %v, reference crossings %v (origin %v dir %v)", s.Name, got, ts, o, d), rcase)
@@ -499,12 +499,12 @@ func checkSolidLattice(r *ev.Run, c latCase) {
 	}
 	sort.Float64s(got)
 	for i := range want {
-		if math.Abs(got[i]-want[i]) > tol {
+		if !(math.Abs(got[i]-want[i]) <= tol) {
 			viol("crossings", fmt.Sprintf("collisions at %v, the surface is crossed at %v", got, want))
 			return
 		}
 	}
-	if ok && math.Abs(first.Scale-want[0]) > tol {
+	if ok && !(math.Abs(first.Scale-want[0]) <= tol) {
 		viol("first-not-min", fmt.Sprintf("first collision at %g, first crossing at %g", first.Scale, want[0]))
 	}
 }
